@@ -1,20 +1,26 @@
 /-
 C12 — Compiled GP trees compute what the prefix tree denotes; printing round-trips.
-Property theorems only; model `DeapModel/Core/GpCompile.lean`, helper lemmas `DeapModel/Lemmas/C12*.lean`.
+Property theorems only; models `DeapModel/Core/GpCompile.lean` (printer, `from_string`, `evalTree`, `compile`,
+`compileADF`) and `DeapModel/Core/PyExpr.lean` (tokenizer, parser and evaluator of the Python expression
+sub-language the generated source lives in); helper lemmas `DeapModel/Lemmas/C12*.lean`.
 
-TRUSTED (not modelled): CPython's `eval` of the source text.  `compile` hands `compileSrc` — by
-`compileSrc_eq` the text `lambda a,b: <render t>` — to `eval`; that a nested call expression
-`f(g(x), y)` evaluates to the callable bound to `f` applied to the values of its arguments (the
-meaning `evalTree` gives to `render t`) is Python's semantics and is only exercised by the
-correspondence run, as is `repr`/`eval` round-tripping of numeric literals (hypothesis on `E.ev`).
+What `eval` does with the source text is no longer assumed: `parse_compileSrc` proves that the model's parser reads
+`lambda a,b: <render t>` back as `Lambda [a, b] (exprOfTree t)` for every tree, `evalPy_compile` / `evalSrc_compile`
+that evaluating that AST in the namespace is `evalTree`, and `pyCompileADF_eq` lifts it through `compileADF`.
+
+TRUSTED (not modelled): that CPython's tokenizer / parser / evaluator of `Name`, `Constant`, `Call`, `UnaryOp(USub)` and
+`Lambda` nodes agree with `PyLang.parseExpr` / `PyLang.evalPy`.  The correspondence run compares, for every source DEAP
+really hands to `eval`, the model's AST with `ast.parse` of CPython and the model's values with the compiled callable.
 -/
 import DeapModel.Lemmas.C12Str
 import DeapModel.Lemmas.C12Tok
 import DeapModel.Lemmas.C12Parse
 import DeapModel.Lemmas.C12Adf
+import DeapModel.Lemmas.C12PyTree
 
 namespace C12
 open GpTree GpCompile
+open PyLang (PyExpr PyEnv PyObj parseExpr evalPy callPy evalSrc isIdent dump)
 
 /-! ### fixtures for the `example`s -/
 def pAdd : Prim := ⟨"add", 0, [0, 0], .prim, ""⟩
@@ -191,5 +197,182 @@ theorem compile_adf_independent (sigs : List PSig) (cs : List Env) (A B : List T
   · rw [(sessGo_independent sigs cs A B h1 h2 h3).2, adf_eval, sessGo_func, sessGo_eq_sem]
 
 example : ([⟨"MAIN".toList, ["x".toList]⟩, ⟨"ADF1".toList, []⟩] : List PSig).length = [exTree, exTree].length := by decide
+
+/-! ## The source text means what the tree denotes (CPython's `eval` of the generated lambda, modelled) -/
+
+/-- **The parser inverts the printer.**  For every well-formed tree whose primitive names are identifiers and whose
+terminals print as names or literals (`SrcOK`), and distinct identifier argument names (`ArgsOK`), the source text
+`gp.compile` hands to `eval` — `lambda a,b: <str(tree)>`, or just `<str(tree)>` for a set without arguments — is read
+by the tokenizer + parser of the Python expression model as exactly `Lambda [a, b] (exprOfTree t)` (resp.
+`exprOfTree t`): every call has its arguments in the right positions, for all arities and depths. -/
+theorem parse_compileSrc (arguments : List Str) (t : Tree) (hw : wf t = true)
+    (ha : ArgsOK arguments = true) (hs : ∀ p ∈ flatten t, SrcOK p = true) :
+    parseExpr (compileSrc arguments (flatten t)) =
+      some (if arguments.length > 0 then PyExpr.lam arguments (exprOfTree t) else exprOfTree t) := by
+  rw [compileSrc_eq arguments t hw]
+  by_cases hl : arguments.length > 0
+  · have hne : arguments ≠ [] := by intro h; simp [h] at hl
+    simp only [hl, if_true, parseExpr, lex_lambda arguments t hne (argsOK_ident ha) hs, Option.bind_some]
+    simp only [PyLang.parseToks, pTop_lambda, pParams_ok arguments _ hne (argsOK_ident ha), argsOK_nodup ha,
+      if_true, pTop_tree t hs, Option.map_some]
+  · simp only [hl, if_false, parseExpr, lex_tree t hs, Option.bind_some, PyLang.parseToks, pTop_tree t hs]
+
+/-- the hypotheses hold for a tree with a renamed argument and a negative ephemeral; the parser returns the AST -/
+example : wf exTree = true ∧ ArgsOK ["x".toList, "y".toList] = true ∧ (∀ p ∈ flatten exTree, SrcOK p = true) ∧
+    (parseExpr (compileSrc ["x".toList, "y".toList] (flatten exTree))).map dump =
+      some "Lx,y(Cadd(Cneg(Nx);M(I3)))" := by decide
+
+/-- literals as `repr` prints them are atoms of the language: negative ints, floats in exponent form, booleans,
+`None`, quoted strings -/
+example : (["-3", "1e-17", "-2.5e+16", "0.1", "True", "None", "'ab'", "\"it's\"", "x_1"].map
+    (fun s => PyLang.isAtomText s.toList)) = [true, true, true, true, true, true, true, true, true] := by decide
+
+/-- **The hypothesis `SrcOK` in explicit, character-level form.**  A primitive whose name is an identifier, and a terminal
+whose text is an identifier (argument, named terminal), a decimal integer literal without leading zeros, or a minus
+sign followed by one (what `repr` prints for an int), can be written into the source.  So for trees over names and
+integer constants `parse_compileSrc` … `pyCompileADF_eq` hold with no reference to the tokenizer in their premises;
+for float, bool, `None` and string constants the premise is the computable check `isAtomText` (see the `example`s). -/
+theorem srcOK_names_ints (p : Prim)
+    (hp : p.kind = .prim → isIdent p.name.toList = true)
+    (ht : p.kind ≠ .prim → isIdent p.text.toList = true ∨ PyLang.isIntLit p.text.toList = true ∨
+      ∃ r, p.text.toList = '-' :: r ∧ PyLang.isIntLit r = true) :
+    SrcOK p = true := by
+  by_cases hk : p.kind = .prim
+  · simp [SrcOK, hk, hp hk]
+  · simp only [SrcOK, hk, if_false, PyLang.isAtomText]
+    rcases ht hk with h | h | ⟨r, hr, h⟩
+    · rw [PyLang.atomOf_ident h]; rfl
+    · rw [PyLang.atomOf_int h]; rfl
+    · rw [hr, PyLang.atomOf_negInt h]; rfl
+
+example : (pAdd.kind = .prim → isIdent pAdd.name.toList = true) ∧
+    (pE.kind ≠ .prim → isIdent pE.text.toList = true ∨ PyLang.isIntLit pE.text.toList = true ∨
+      ∃ r, pE.text.toList = '-' :: r ∧ PyLang.isIntLit r = true) :=
+  ⟨fun _ => by decide, fun _ => Or.inr (Or.inr ⟨['3'], by decide, by decide⟩)⟩
+
+/-- **Python's evaluation of that AST is the tree's evaluation.**  Applying the lambda `Lambda args (exprOfTree t)` to
+`vals` in the namespace `P` (parameters shadow the globals; a call looks up the callee, evaluates the arguments left to
+right and applies) gives `compile (envOfPy P) args t vals`, i.e. `evalTree` of the prefix tree in the environment
+extended by the arguments. -/
+theorem evalPy_compile (P : PyEnv) (arguments : List Str) (t : Tree) (vals : List Val)
+    (ha : ∀ a ∈ arguments, isIdent a = true) (hs : ∀ p ∈ flatten t, SrcOK p = true) :
+    callPy P (PyExpr.lam arguments (exprOfTree t)) vals = compile (envOfPy P) arguments t vals ∧
+    compile (envOfPy P) arguments t vals =
+      (if vals.length ≠ arguments.length then none
+       else evalTree { envOfPy P with vars := bindArgs arguments vals (envOfPy P).vars,
+                                      funs := shadowFuns arguments vals (envOfPy P).funs } t) := by
+  refine ⟨?_, rfl⟩
+  simp only [callPy, compile]
+  by_cases hl : vals.length ≠ arguments.length
+  · rw [if_pos hl, if_pos hl]
+  · rw [if_neg hl, if_neg hl]
+    exact evalPy_tree P arguments vals ha t hs
+
+example : (∀ a ∈ ["x".toList, "y".toList], isIdent a = true) ∧ (∀ p ∈ flatten exTree, SrcOK p = true) := by decide
+
+/-- **From the text to the value.**  `pyCompile` is `gp.compile` as coded: build the source, parse it, evaluate the
+AST in `pset.context` (`eval(code, pset.context, {})`), call the result.  It computes what the prefix tree denotes. -/
+theorem evalSrc_compile (P : PyEnv) (arguments : List Str) (t : Tree) (vals : List Val) (hw : wf t = true)
+    (ha : ArgsOK arguments = true) (hs : ∀ p ∈ flatten t, SrcOK p = true) :
+    pyCompile P arguments (flatten t) vals = compile (envOfPy P) arguments t vals := by
+  unfold pyCompile evalSrc
+  rw [parse_compileSrc arguments t hw ha hs]
+  by_cases hl : arguments.length > 0
+  · simp only [hl, if_true, decide_true]
+    exact (evalPy_compile P arguments t vals (argsOK_ident ha) hs).1
+  · have hnil : arguments = [] := by
+      cases arguments with
+      | nil => rfl
+      | cons a as => simp at hl
+    subst hnil
+    simp only [List.length_nil, Nat.lt_irrefl, decide_false, if_false, Bool.false_eq_true]
+    have := evalPy_tree P [] vals (by simp) t hs
+    cases vals with
+    | nil =>
+      simp only [List.isEmpty_nil, if_true]
+      simpa [compile, bodyEnv, bodyTreeEnv] using this
+    | cons v vs => simp [compile]
+
+example : wf exTree = true ∧ ArgsOK ([] : List Str) = true := by decide
+
+/-! ### … including trees that call automatically defined functions -/
+
+/-- the tree-level view of a primitive set given with its Python namespace -/
+def toCPset (ps : PyCPset) : CPset := ⟨ps.name, ps.arguments, envOfPy ps.ctx⟩
+
+/-- what `pyCompileADF_eq` asks of one (set, tree) pair -/
+def AdfOK (pt : PyCPset × Tree) : Prop :=
+  wf pt.2 = true ∧ ArgsOK pt.1.arguments = true ∧ isIdent pt.1.name = true ∧ ∀ p ∈ flatten pt.2, SrcOK p = true
+
+/-- one step of `compileADF`: compiling a tree through its source text in the namespace extended by the ADFs
+compiled so far is compiling the tree in the extended tree environment -/
+theorem pyCompile_withAdfs (pt : PyCPset × Tree) (d : List (Str × (List Val → Option Val)))
+    (hd : ∀ e ∈ d, isIdent e.1 = true) (hok : AdfOK pt) :
+    pyCompile (withAdfsPy pt.1.ctx d) pt.1.arguments (flatten pt.2) =
+      compile (withAdfs (envOfPy pt.1.ctx) d) pt.1.arguments pt.2 := by
+  obtain ⟨hw, ha, _, hs⟩ := hok
+  funext vals
+  rw [evalSrc_compile _ _ _ _ hw ha hs, envOfPy_withAdfs _ _ hd]
+
+example : AdfOK ((⟨"ADF1".toList, ["x".toList, "y".toList], ⟨fun _ => none, []⟩⟩ : PyCPset), exTree) :=
+  ⟨by decide, by decide, by decide, by decide⟩
+
+theorem pyAdfStep_eq (st : List (Str × (List Val → Option Val)) × Option (List Val → Option Val))
+    (hd : ∀ e ∈ st.1, isIdent e.1 = true) (pt : PyCPset × Tree) (hok : AdfOK pt) :
+    pyAdfStep st (pt.1, flatten pt.2) = adfStep st (toCPset pt.1, pt.2) := by
+  have := pyCompile_withAdfs pt _ hd hok
+  simp only [pyAdfStep, pyAdfStepSrc, adfStep, toCPset]
+  rw [← this]
+  rfl
+
+example : ∀ e ∈ (([], none) : List (Str × (List Val → Option Val)) × Option (List Val → Option Val)).1,
+    isIdent e.1 = true := by simp
+
+theorem pyAdf_fold (pts : List (PyCPset × Tree)) (h : ∀ pt ∈ pts, AdfOK pt) :
+    (pts.map (fun pt => (pt.1, flatten pt.2))).foldr (fun pt st => pyAdfStep st pt) ([], none) =
+      (pts.map (fun pt => (toCPset pt.1, pt.2))).foldr (fun pt st => adfStep st pt) ([], none) ∧
+    ∀ e ∈ ((pts.map (fun pt => (toCPset pt.1, pt.2))).foldr (fun pt st => adfStep st pt) ([], none)).1,
+      isIdent e.1 = true := by
+  induction pts with
+  | nil => simp
+  | cons pt pts ih =>
+    obtain ⟨ih1, ih2⟩ := ih (fun q hq => h q (by simp [hq]))
+    have hok := h pt (by simp)
+    simp only [List.map_cons, List.foldr_cons]
+    rw [ih1]
+    refine ⟨?_, ?_⟩
+    · exact pyAdfStep_eq _ ih2 pt hok
+    · intro e he
+      simp only [adfStep, toCPset, List.mem_cons] at he
+      rcases he with rfl | he
+      · exact hok.2.2.1
+      · exact ih2 e he
+
+example : ∀ pt ∈ ([] : List (PyCPset × Tree)), AdfOK pt := by simp
+
+/-- **ADFs.**  `compileADF` as coded — every tree compiled THROUGH its source text, innermost set first, the callables
+compiled so far put into the globals of the next lambda (`dict(pset.context, **adfdict)`) — returns the same callable
+as the tree-level `compileADF`, whose meaning `adf_eval` gives: the main tree evaluated with every ADF name bound to
+the evaluator of the corresponding tree. -/
+theorem pyCompileADF_eq (pts : List (PyCPset × Tree)) (h : ∀ pt ∈ pts, AdfOK pt) :
+    pyCompileADF (pts.map (fun pt => (pt.1, flatten pt.2))) =
+      compileADF (pts.map (fun pt => (toCPset pt.1, pt.2))) := by
+  unfold pyCompileADF compileADF
+  rw [List.foldl_reverse, List.foldl_reverse, (pyAdf_fold pts h).1]
+
+/-- compiling the source texts is compiling the sources built from the trees (`pyCompileADFSrc` is what the
+correspondence run evaluates on the texts DEAP really handed to `eval`) -/
+theorem pyCompileADFSrc_eq (pts : List (PyCPset × List Prim)) :
+    pyCompileADFSrc (pts.map (fun pt => (pt.1, compileSrc pt.1.arguments pt.2))) = pyCompileADF pts := by
+  unfold pyCompileADFSrc pyCompileADF
+  rw [← List.map_reverse, List.foldl_map]
+  rfl
+
+/-- a two-set instance of the hypotheses: `MAIN(x)` calling `ADF1`, both trees over identifiers and literals -/
+example : ∀ pt ∈ [((⟨"MAIN".toList, ["x".toList, "y".toList], ⟨fun _ => none, []⟩⟩ : PyCPset), exTree),
+                  (⟨"ADF1".toList, [], ⟨fun _ => none, []⟩⟩, exTree)], AdfOK pt := by
+  intro pt hpt
+  simp only [List.mem_cons, List.not_mem_nil, or_false] at hpt
+  rcases hpt with rfl | rfl <;> exact ⟨by decide, by decide, by decide, by decide⟩
 
 end C12
